@@ -11,11 +11,18 @@ package main
 import (
 	"bytes"
 	"context"
+	"crypto/ecdsa"
+	"crypto/ed25519"
+	"crypto/elliptic"
+	"crypto/rand"
 	"crypto/rsa"
+	"crypto/x509"
+	"crypto/x509/pkix"
 	"encoding/binary"
 	"fmt"
 	"io"
 	"log"
+	"math/big"
 	"net"
 	"os"
 	"regexp"
@@ -844,6 +851,17 @@ func (e *env) channel(uri string, mode ua.MessageSecurityMode) {
 	// OPN with a certificate that does not parse
 	junk := setSize(append(opnHeader(uri, e.rnd.Bytes(300), e.rnd.Bytes(20)), e.rnd.Bytes(256)...))
 	e.feed(cc, "opn-bad-certificate", junk, -1, "none", nil)
+	// OPN with a WELL-FORMED certificate whose public key is not RSA (ECDSA P-256, Ed25519):
+	// no algorithm can be derived -> error, before any signature check, and no panic
+	for _, kind := range []string{"ecdsa", "ed25519"} {
+		der, err := nonRSACert(kind)
+		if err != nil {
+			e.r.InfraError = "certificate generation: " + err.Error()
+			return
+		}
+		f := setSize(append(opnHeader(uri, der, e.rnd.Bytes(20)), e.rnd.Bytes(256)...))
+		e.feed(cc, "opn-"+kind+"-certificate", f, -1, "none", nil)
+	}
 	// genuine asymmetric OPN from a client with its own certificate, and one signed by another key
 	ck, err1 := h.LoadKey(e.o.Keys, 2048, "a")
 	if err1 != nil {
@@ -887,6 +905,32 @@ func (e *env) channel(uri string, mode ua.MessageSecurityMode) {
 		if f, _, tok := asym(other); f != nil { // certificate of a, signature of b
 			e.feed(cc, "opn-wrong-signer", f, -1, tok, nil)
 		}
+	}
+}
+
+// nonRSACert returns a self-signed, well-formed X.509 certificate (DER) with an
+// ECDSA P-256 or an Ed25519 key.
+func nonRSACert(kind string) ([]byte, error) {
+	tmpl := x509.Certificate{
+		SerialNumber: big.NewInt(7),
+		Subject:      pkix.Name{CommonName: "verif non-RSA " + kind},
+		NotBefore:    time.Now().Add(-time.Hour),
+		NotAfter:     time.Now().Add(24 * time.Hour),
+		KeyUsage:     x509.KeyUsageDigitalSignature,
+	}
+	switch kind {
+	case "ecdsa":
+		k, err := ecdsa.GenerateKey(elliptic.P256(), rand.Reader)
+		if err != nil {
+			return nil, err
+		}
+		return x509.CreateCertificate(rand.Reader, &tmpl, &tmpl, &k.PublicKey, k)
+	default:
+		pub, priv, err := ed25519.GenerateKey(rand.Reader)
+		if err != nil {
+			return nil, err
+		}
+		return x509.CreateCertificate(rand.Reader, &tmpl, &tmpl, pub, priv)
 	}
 }
 
